@@ -209,7 +209,9 @@ def run(tier, seed, replay=None):
         L = rng.randrange(4, 7)
         seqs.append(tuple(rng.choice(OPS) for _ in range(L)))
     # always run: a generated id that is taken already (after an unload the count of loaded traces names a live trace)
-    seqs += [('load a', 'load b', 'stepm a b 3', 'stepm b a 2'), ('load b', 'load a', 'stepm b a 2', 'stepm a b 3', 'step all'),
+    seqs += [('load a', 'load b', 'step all 2', 'ahead b', 'ahead a'), ('load c', 'load b', 'step all', 'ahead b', 'step all'),
+             ('load b', 'load c', 'step all', 'ahead c', 'ahead b'), ('load a', 'load b', 'load c', 'step all', 'ahead a', 'ahead b'),
+             ('load a', 'load b', 'stepm a b 3', 'stepm b a 2'), ('load b', 'load a', 'stepm b a 2', 'stepm a b 3', 'step all'),
              ('loadgen a', 'loadgen a', 'unload t0', 'loadgen a', 'step all'), ('loadgen a', 'loadgen a', 'unload t0', 'loadgen a', 'unload t1', 'step all'),
              ('load a', 'loadgen a', 'unload a', 'loadgen a'), ('loadgen a', 'load b', 'load c', 'unload t0', 'unload b', 'loadgen a'),
              ('loadgen a', 'loadgen a', 'loadgen a', 'unload t0', 'ahead a', 'loadgen a')]
